@@ -111,6 +111,179 @@ func rebaseSets(u *univ.Universe, f int) []rebaseSet {
 	return out
 }
 
+// c13Diamond: V2TransactionSet on dependency shapes that are not chains. T spends outputs of A and of B, and B
+// itself spends an output of A (a diamond); both input orders of T; the set must come back parents-first.
+// Also a basis that is not the tip: T carries one confirmed input with a proof as of an older index while
+// its pooled parent's proofs are as of the tip.
+func c13Diamond() {
+	for _, reg := range []univ.Regime{univ.RegimeX, univ.RegimeV2} {
+		u := univ.NewUniverse("diamond", reg)
+		k := 0
+		for u.Nodes[k].Height+1 < u.Net.HardforkV2.AllowHeight+1 || u.Nodes[k].Height < 2 {
+			k = u.Add(k, 0, nil, nil, fmt.Sprintf("m%d", u.Nodes[k].Height+1))
+		}
+		old := k
+		k = u.Add(k, 0, nil, nil, "tip")
+		n := node.New(u)
+		if err := n.CM.AddBlocks(u.Blocks(u.PathTo(k))); err != nil {
+			run.Violate("c13:diamond-setup", err.Error(), nil)
+			return
+		}
+		Lold, Ltip := u.Nodes[old].L, u.Nodes[k].L
+		a := u.As[1]
+		own := univ.OwnedSC(Ltip, a.Addr)
+		tipIdx := n.CM.Tip()
+		A := univ.V2Spend(Ltip.State, a, own[0], a.Addr, univ.SC(8), univ.SC(1)) // outputs: 8 SC to a, change to a
+		B := univ.V2Spend(Ltip.State, a, univ.Ephemeral(A, 0), a.Addr, univ.SC(5), univ.SC(1))
+		mk := func(ins ...types.SiacoinElement) types.V2Transaction {
+			var sum types.Currency
+			t := types.V2Transaction{MinerFee: univ.SC(1)}
+			for _, e := range ins {
+				t.SiacoinInputs = append(t.SiacoinInputs, types.V2SiacoinInput{Parent: e})
+				sum = sum.Add(e.SiacoinOutput.Value)
+			}
+			t.SiacoinOutputs = []types.SiacoinOutput{{Address: u.As[0].Addr, Value: sum.Sub(univ.SC(1))}}
+			univ.SignV2(Ltip.State, &t, a)
+			return t
+		}
+		for _, order := range []string{"A-output-first", "B-output-first"} {
+			nn := node.New(u)
+			nn.CM.AddBlocks(u.Blocks(u.PathTo(k)))
+			var T types.V2Transaction
+			if order == "A-output-first" {
+				T = mk(univ.Ephemeral(A, 1), univ.Ephemeral(B, 0))
+			} else {
+				T = mk(univ.Ephemeral(B, 0), univ.Ephemeral(A, 1))
+			}
+			if _, err := nn.CM.AddV2PoolTransactions(tipIdx, []types.V2Transaction{A, B, T}); err != nil {
+				run.Violate("c13:diamond-setup", fmt.Sprintf("[%s] the diamond set is refused by the pool: %v", reg, err), nil)
+				continue
+			}
+			run.Add(1, 1, 1, 1)
+			_, set, err := nn.CM.V2TransactionSet(tipIdx, T.DeepCopy())
+			where := fmt.Sprintf("[%s] V2TransactionSet(tip, T) with T spending an output of A and an output of B, B spending an output of A, T's inputs %s", reg, order)
+			if err != nil {
+				run.Violate("c13:txset-error:diamond", where+": "+err.Error(), nil)
+				continue
+			}
+			ms := consensus.NewMidState(Ltip.State)
+			for i, x := range set {
+				if verr := consensus.ValidateV2Transaction(ms, x); verr != nil {
+					var ids []string
+					for _, y := range set {
+						ids = append(ids, map[types.TransactionID]string{A.ID(): "A", B.ID(): "B", T.ID(): "T"}[y.ID()])
+					}
+					run.Violate("c13:txset-order:diamond", fmt.Sprintf("%s: returned order %v, transaction %d is not valid after the ones before it: %v", where, ids, i, verr), map[string]any{"regime": string(reg), "order": order})
+					break
+				}
+				ms.ApplyV2Transaction(x)
+			}
+		}
+		// basis older than the tip
+		nn := node.New(u)
+		nn.CM.AddBlocks(u.Blocks(u.PathTo(k)))
+		ownOld := univ.OwnedSC(Lold, a.Addr)
+		P := univ.V2Spend(Ltip.State, a, own[1], a.Addr, univ.SC(6), univ.SC(1))
+		if _, err := nn.CM.AddV2PoolTransactions(tipIdx, []types.V2Transaction{P}); err != nil {
+			run.Violate("c13:diamond-setup", err.Error(), nil)
+			continue
+		}
+		var confirmedOld types.SiacoinElement
+		for _, e := range ownOld {
+			if e.ID == own[2].ID {
+				confirmedOld = e
+			}
+		}
+		C := types.V2Transaction{MinerFee: univ.SC(1), SiacoinInputs: []types.V2SiacoinInput{{Parent: confirmedOld}, {Parent: univ.Ephemeral(P, 0)}}}
+		C.SiacoinOutputs = []types.SiacoinOutput{{Address: u.As[0].Addr, Value: confirmedOld.SiacoinOutput.Value.Add(univ.SC(6)).Sub(univ.SC(1))}}
+		univ.SignV2(Lold.State, &C, a)
+		oldIdx := types.ChainIndex{ID: u.Nodes[old].Block.ID(), Height: u.Nodes[old].Height}
+		run.Add(1, 1, 1, 1)
+		basis, set, err := nn.CM.V2TransactionSet(oldIdx, C.DeepCopy())
+		where := fmt.Sprintf("[%s] V2TransactionSet(tip-1, C) with C carrying a confirmed input proven as of tip-1 and an output of the pooled P", reg)
+		switch {
+		case err != nil:
+			run.Violate("c13:txset-error:old-basis", where+": "+err.Error(), map[string]any{"regime": string(reg)})
+		case basis != tipIdx:
+			run.Violate("c13:txset-basis", fmt.Sprintf("%s returned basis %v, tip is %v", where, basis, tipIdx), nil)
+		default:
+			ms := consensus.NewMidState(Ltip.State)
+			for i, x := range set {
+				if verr := consensus.ValidateV2Transaction(ms, x); verr != nil {
+					run.Violate("c13:txset-invalid:old-basis", fmt.Sprintf("%s: transaction %d of the returned set is not valid at the tip: %v", where, i, verr), map[string]any{"regime": string(reg)})
+					break
+				}
+				ms.ApplyV2Transaction(x)
+			}
+		}
+	}
+}
+
+// c13ExtraSets: hand-built sets per universe name and basis node.
+var c13ExtraSets = map[string]map[int][]rebaseSet{}
+
+// c13TwoParents: a child with two ephemeral inputs whose parents are confirmed by *different* blocks of the
+// branches (in both orders), with the inputs listed in both orders.
+func c13TwoParents(reg univ.Regime) *univ.Universe {
+	u := univ.NewUniverse("two-parents", reg)
+	k := 0
+	for u.Nodes[k].Height+1 < u.Net.HardforkV2.AllowHeight+1 || u.Nodes[k].Height < 2 {
+		k = u.Add(k, 0, nil, nil, fmt.Sprintf("m%d", u.Nodes[k].Height+1))
+	}
+	base := k
+	L := u.Nodes[base].L
+	a := u.As[1]
+	own := univ.OwnedSC(L, a.Addr)
+	if len(own) < 2 {
+		panic("c13 two-parents: actor needs two outputs")
+	}
+	p1 := univ.V2Spend(L.State, a, own[0], a.Addr, univ.SC(8), univ.SC(1))
+	p2 := univ.V2Spend(L.State, a, own[1], a.Addr, univ.SC(7), univ.SC(1))
+	mkChild := func(first, second types.V2Transaction) types.V2Transaction {
+		e1, e2 := univ.Ephemeral(first, 0), univ.Ephemeral(second, 0)
+		c := types.V2Transaction{
+			SiacoinInputs:  []types.V2SiacoinInput{{Parent: e1}, {Parent: e2}},
+			SiacoinOutputs: []types.SiacoinOutput{{Address: u.As[0].Addr, Value: e1.SiacoinOutput.Value.Add(e2.SiacoinOutput.Value).Sub(univ.SC(1))}},
+			MinerFee:       univ.SC(1),
+		}
+		univ.SignV2(L.State, &c, a)
+		return c
+	}
+	c12, c21 := mkChild(p1, p2), mkChild(p2, p1)
+	u.Name = "two-parents-" + string(reg)
+	c13ExtraSets[u.Name] = map[int][]rebaseSet{base: {
+		{"p1,p2,child(p1 first)", base, []types.V2Transaction{p1, p2, c12}},
+		{"p1,p2,child(p2 first)", base, []types.V2Transaction{p1, p2, c21}},
+		{"p2,p1,child(p2 first)", base, []types.V2Transaction{p2, p1, c21}},
+	}}
+	// main path continues empty; branch B confirms p2 then p1; branch C confirms p1 then p2; branch D both at once
+	k = u.Add(base, 0, nil, nil, "main+1")
+	u.Add(k, 0, nil, nil, "main+2")
+	rebuild := func(parent int, t types.V2Transaction) types.V2Transaction {
+		// the same transaction with proofs valid at parent (it stays the same transaction id)
+		c := t.DeepCopy()
+		for i := range c.SiacoinInputs {
+			if e, ok := u.Nodes[parent].L.SCEs[c.SiacoinInputs[i].Parent.ID]; ok {
+				c.SiacoinInputs[i].Parent.StateElement = e.StateElement.Copy()
+			}
+		}
+		return c
+	}
+	b1 := u.Add(base, 1, nil, []types.V2Transaction{rebuild(base, p2)}, "B:p2")
+	b2 := u.Add(b1, 1, nil, []types.V2Transaction{rebuild(b1, p1)}, "B:p1")
+	u.Add(b2, 1, nil, nil, "B+3")
+	c1 := u.Add(base, 2, nil, []types.V2Transaction{rebuild(base, p1)}, "C:p1")
+	c2 := u.Add(c1, 2, nil, []types.V2Transaction{rebuild(c1, p2)}, "C:p2")
+	c3 := u.Add(c2, 2, nil, nil, "C+3")
+	u.Add(c3, 2, nil, nil, "C+4")
+	for _, nd := range u.Nodes {
+		if !nd.Valid {
+			panic("c13 two-parents: invalid block " + nd.Label + ": " + nd.Err)
+		}
+	}
+	return u
+}
+
 // expectRebase computes what the reference says about rebasing set s from its basis to node t.
 // verdict: "ok" (want holds the expected result), "error" (must be rejected), "unjudged".
 func expectRebase(u *univ.Universe, s rebaseSet, t int) (verdict string, want []types.V2Transaction, why string) {
@@ -478,6 +651,10 @@ func c13() {
 			}
 		}
 	}
+	for _, reg := range []univ.Regime{univ.RegimeX, univ.RegimeV2} {
+		jobs = append(jobs, c13TwoParents(reg))
+	}
+	c13Diamond()
 	if v := c13Line(); v != nil {
 		run.Violate(v.Signature, v.What, map[string]any{"universe": "line150"})
 	}
@@ -489,7 +666,7 @@ func c13() {
 		u := jobs[i]
 		sets := map[int][]rebaseSet{}
 		for k := range u.Nodes {
-			sets[k] = rebaseSets(u, k)
+			sets[k] = append(rebaseSets(u, k), c13ExtraSets[u.Name][k]...)
 		}
 		ops := storyOps(u, false)
 		res := bfs.Run(bfs.Config{
